@@ -47,6 +47,13 @@ THEOREMS = [
         "query_on_frame", "interp_never_at_later",
         "interp_keeps_unpaired", "interp_second_pass_filter", "interp_uuids",
         "yaw_shortest_arc", "arc_spec", "manager_dispatch",
+        # the CODE's decision tables / interpolation formulas (PEval/Gen/LookupTables.lean, regenerated on every run)
+        "getNow_code_table_eq_model", "getInterp_code_table_eq_model",
+        "getNow_code_table_eq_getNowFrame", "getInterp_code_table_eq_getInterpolated",
+        "getNow_code_table_spec", "getNow_code_table_first_tie",
+        "getInterp_code_table_gating", "getInterp_code_table_none",
+        "interpList_code_eq_model", "interpState_code_eq_model", "interpState_code_velocity_presence",
+        "interpState_code_eq_lerp", "interpList_code_endpoints", "interpList_code_between_linear",
     ]
 ]
 RULE = (
@@ -69,6 +76,9 @@ TRUSTED = [
     "the comparison and the oracle allow exactly that much in that regime and 1e-9 elsewhere",
     "the bridge arg(z1 z2) = arg z1 + arg z2 (DESIGN 4.2): the harness hands tau = atan2(s, c)/pi of each ego pose to the model",
     "numpy matrix products and copy.deepcopy",
+    "harness/dt_c17.py: the symbolic stubs (linear forms with canonical three-valued order atoms, expression trees), the DFS over "
+    "decision prefixes and the Lean printer; `interp i j` is read off the traceback (the callee that first reads more than a "
+    "frame's stamp received frames i, j and the unchanged query time)",
 ]
 ASSUMPTIONS = [
     "lookups are read-only and repeatable (a lookup leaves every loaded frame, object and registered transform as it was; "
@@ -78,6 +88,11 @@ ASSUMPTIONS = [
     "timestamps and tolerances are Python ints",
     "3-D DynamicObject only (DynamicObject2D frames have camera frame ids, which convert_objects_to_global rejects)",
     "exactly antipodal headings (arc = half a turn) have two shortest arcs: either direction is accepted",
+    "decision tables cover frame lists of length 0..3 only (a bounded skeleton); order atoms of different linear forms are treated "
+    "as independent (a superset of the realisable valuations); inputs that are not plain numbers (None tolerance, NaN) and what "
+    "happens inside interpolate_ground_truth_frames are outside the tables and stay with the correspondence runs",
+    "interpolate_list / interpolate_state are tabulated as exact rational expressions (float rounding is outside); the slerp itself "
+    "(pyquaternion) is not tabulated, only its parameter",
     "the oracle is evaluated on time-ordered timelines with per-frame unique uuids, ego poses present and base_link / map "
     "objects (the property's quantifier); unsorted, duplicate-uuid and error inputs are compared with the model only",
 ]
@@ -939,7 +954,43 @@ def _gen_case(rng, tier):
 
 def generate(rng, tier):
     n = N_QUICK if tier == "quick" else N_THOROUGH
-    return [_gen_case(rng, tier) for _ in range(n)]
+    return table_witness_cases() + [_gen_case(rng, tier) for _ in range(n)]
+
+
+# ----------------------------------------------------------------------------- decision tables of the real code
+
+def table_witness_cases():
+    """valuations on which the CODE's decision table differs from the model's skeleton, realised as concrete lookups
+    (empty on a tree whose tables equal the skeleton); also rational points where an interpolation formula differs"""
+    from .. import dt_c17
+
+    cs = []
+    try:
+        for w in dt_c17.witness_inputs():
+            frames = [{"time": t, "ego": _e(k, 0), "objs": [_o(1, k, 0)]} for k, t in enumerate(w["ts"])]
+            srt = all(a < b for a, b in zip(w["ts"], w["ts"][1:]))
+            mode = "now" if w["fn"] == "getNow" else "interp"
+            for via in ("func", "manager"):
+                cs.append(_case(mode, frames, w["q"], w["tol"], via=via, timeline="sorted" if srt else "unsorted",
+                                qclass="table-witness"))
+        kern = dt_c17.STATE.get("arith")
+        for d in (dt_c17.arith_differences(kern) if kern else []):
+            p = {k: F(v) for k, v in d["point"].items()}
+            t1, t2, t = int(p["t1"]), int(p["t2"]), int(p["t"])
+            objs1 = [_o(1, p["a0"], p["a1"], tau="0", vel=(core.q(p["a0"]), core.q(p["a1"]), core.q(p["a2"])))]
+            objs2 = [_o(1, p["b0"], p["b1"], tau="1/2", vel=(core.q(p["b0"]), core.q(p["b1"]), core.q(p["b2"])))]
+            frames = [{"time": t1, "ego": _e(), "objs": objs1}, {"time": t2, "ego": _e(), "objs": objs2}]
+            cs.append(_case("interp", frames, t, t2 - t1, qclass="table-witness"))
+            cs.append(_case("direct", frames, t, 0, qclass="table-witness"))
+    except Exception:  # noqa: BLE001 - the witness step must never break the check
+        return cs
+    return cs
+
+
+def extra_evidence():
+    from .. import dt_c17
+
+    return {"tables": dt_c17.evidence()}
 
 
 # ----------------------------------------------------------------------------- corpus
@@ -1090,11 +1141,33 @@ def _seq_branches(case, out):
     return b
 
 
+_TABLE_NOTE = []
+
+
+def _table_branches():
+    """once per run: how the decision tables of the real code came out (`table:untranslatable` = the translator fell back)"""
+    if _TABLE_NOTE:
+        return []
+    _TABLE_NOTE.append(1)
+    try:
+        from .. import dt_c17
+
+        ev = dt_c17.evidence()
+        b = [f"table:untranslatable:{k}" for k in ev["decision_tables_untranslatable"]]
+        if ev["decision_tables_untranslatable"]:
+            b.append("table:untranslatable")
+        if ev["arith_kernels"] != "translated":
+            b += ["table:untranslatable", "table:untranslatable:arith"]
+        return b + [f"table:{k}:paths={v['paths']}" for k, v in ev["decision_tables"].items()]
+    except Exception:  # noqa: BLE001
+        return ["table:untranslatable"]
+
+
 def branches(case, out):
     if "steps" not in out:
         return ["harness-error", "trivial"]
     b = _branches1(case, out["steps"][0])
-    return b + _seq_branches(case, out)
+    return b + _seq_branches(case, out) + _table_branches()
 
 
 def _branches1(case, out):
@@ -1206,8 +1279,8 @@ def shrink(case):
 
 
 def search(rng, st, disagreements):
-    """more interpolated lookups (the branch every C17 mechanism feeds into)"""
-    out = []
+    """witnesses of a broken table theorem first, then more interpolated lookups (the branch every C17 mechanism feeds into)"""
+    out = table_witness_cases()
     while len(out) < 4000:
         c = _gen_case(rng, "thorough")
         if c["mode"] != "now" or rng.random() < 0.3:
